@@ -101,6 +101,25 @@ CLAIMED = {
         "Trusted: symx + z3; softmax replaced by its exp contract, exp strictly monotone; the T->0 limit statement is taken as "
         "'arg-max bin', n_cuts<=3 (4 thorough), <=3 data rows.",
         "DESIGN.md §4 C15", None),
+    "C16": (
+        "Symbolic execution of the REAL validators: each numeric hyper-parameter of each estimator / GEMINI constructor is a symbolic "
+        "integer or real, every comparison made by the validation is forked, and on every feasible path 'accepted' must coincide with "
+        "the documented domain (table in the check, not the code's constraint objects); check_groups on symbolic-integer group lists "
+        "(accepted <=> in range and pairwise distinct; completed into a partition) plus an exhaustive concrete sweep; verdicts are "
+        "history-independent (equal-but-differently-typed values, call sequences); wrong types, unknown options, malformed data, "
+        "unfitted use and 'no fitted model after a failed fit' through the public API.",
+        "Trusted: the documented-domain table; integers explored in [lo-2, lo+3]; the public-API part is concrete enumeration "
+        "(scikit-learn's own validators do the work there; the solver has nothing to add and the evidence says so).",
+        "DESIGN.md §4 C16", "symbolic execution of the repository source (symx): symbolic values/indices, decisions forked with z3 feasibility, post-conditions by term identity or path evaluation"),
+    "C18": (
+        "Bounded symbolic model checking: arbitrary symbolic fitted parameters, symbolic new points; for EVERY ordered selection of "
+        "rows the real predict_proba/predict/Tree.predict on the selection equals the corresponding rows on the whole array (term "
+        "identity / labels on every path); repeat call, copy, stored training object; KernelRIM through an uninterpreted kernel of "
+        "(metric, params, x_i, t_j) so that kernel arguments and parameters are checked; a narrowing dtype in check_array is an "
+        "uninterpreted rounding.",
+        "Trusted: symx; m<=2 rows (3 thorough), shapes listed; 'all fitted states' = arbitrary parameter symbols of those shapes; "
+        "Kauri trees = all shapes with <=3 leaves (4 thorough) over 2 features.",
+        "DESIGN.md §4 C18", "symbolic execution of the repository source (symx): symbolic values/indices, decisions forked with z3 feasibility, post-conditions by term identity or path evaluation"),
 }
 
 NOT_APPLICABLE = {
